@@ -9,7 +9,7 @@ from mc.runner import Stats
 ID = "C28"
 LEVEL = "exploration"
 TECHNIQUE = "exhaustive input enumeration with XML and HTML re-parsing"
-RULE = ("trees from 28 shapes + 7 nested-slot shapes (the same slot name filled with different values on an outer and an inner tag, referenced as child and as attribute value inside the inner tag and again after it closed; three levels; siblings; inner tag filling another name; slot defaults - the parsed text must be the innermost enclosing fill) (text / attribute value / comment / CDATA in and next to elements, void and transparent "
+RULE = ("trees from 28 shapes + 7 nested-slot shapes + 4 shapes x 4 renderer results for a slot-filled tag that also has a renderer (renderer returns the tag, its children, a new wrapper tag, a list holding a slot; inside an outer tag filling the same name) (the same slot name filled with different values on an outer and an inner tag, referenced as child and as attribute value inside the inner tag and again after it closed; three levels; siblings; inner tag filling another name; slot defaults - the parsed text must be the innermost enclosing fill) (text / attribute value / comment / CDATA in and next to elements, void and transparent "
         "tags, two attributes, depth 2, adjacent comment-text-CDATA pairs) x content strings = every concatenation of "
         "<= 2 tokens (quick; <= 3 for comment and CDATA payloads in thorough) from {< > & \" ' - -- -> --> !> --!> ] ]] ]]> ]> "
         "<!-- <![CDATA[ &amp; &lt; a space </div> <b> newline e-acute VT} x carriers (str, bytes, slot, slot default, fired "
@@ -144,6 +144,29 @@ def model(spec_nodes, leak=False):
             for c in n[3]:
                 walk(c, env)
             ev.append(("end", n[1]))
+        elif k == "rtag":
+            # a slot-filled tag with a renderer: its fills cover whatever the renderer returned
+            frame = dict((fk, fv) for fk, fv, _kind in n[2])
+            if leak:
+                leaked.append(frame)
+                env = leaked
+            else:
+                env = env + [frame]
+            mode = n[5]
+            if mode == "same":
+                ev.append(("start", n[1], tuple(sorted((a, lookup(sn, d, env)) for a, sn, d in n[3]))))
+            elif mode == "wrap":
+                ev.append(("start", "span", (("class", "w"),)))
+            elif mode == "list":
+                text("[")
+                text(lookup("x", "dflt", env))
+                text("]")
+            for c in n[4]:
+                walk(c, env)
+            if mode == "same":
+                ev.append(("end", n[1]))
+            elif mode == "wrap":
+                ev.append(("end", "span"))
         elif k == "ftag":
             if leak:
                 leaked.append(dict((fk, fv) for fk, fv, _kind in n[2]))
@@ -159,6 +182,28 @@ def model(spec_nodes, leak=False):
     for n in spec_nodes:
         walk(n, leaked if leak else [])
     return ev
+
+
+RENDER_MODES = ["same", "children", "wrap", "list"]
+
+
+def shapes_render():
+    """A tag that carries BOTH fillSlots values and a renderer; the renderer returns the tag, its children, a new
+    wrapper tag around the children, or a list holding a slot.  f(mode, a, b, c) -> spec list.
+    rtag = (kind, tag name, fills, attributes [(attr, slot, default)], children, renderer mode)."""
+    R = lambda name="x", default=None: ("slotref", name, default)
+    T = lambda s: ("text", s, "str")
+    return {
+        "r-nested": lambda m, a, b, c: [("ftag", "div", [("x", a, "str")], [], [
+            R(), ("rtag", "span", [("x", b, "str")], [("t", "x", None)], [R(), T("!")], m), R()])],
+        "r-top": lambda m, a, b, c: [("rtag", "div", [("x", b, "str")], [("t", "x", None)], [R(), T(a)], m),
+                                     R("x", c)],
+        "r-holds-ftag": lambda m, a, b, c: [("ftag", "div", [("x", c, "str")], [], [
+            ("rtag", "span", [("x", b, "bytes")], [], [("ftag", "span", [("x", a, "str")], [("t", "x", None)], [R()]), R()], m),
+            R()])],
+        "r-other-name": lambda m, a, b, c: [("ftag", "div", [("x", a, "str")], [], [
+            ("rtag", "span", [("y", b, "str")], [("u", "y", None)], [R("x"), R("y")], m), R("y", c)])],
+    }
 
 
 def shapes_slots():
@@ -263,6 +308,14 @@ class Build:
         if k == "slotref":
             from twisted.web.template import slot
             return slot(n[1]) if n[2] is None else slot(n[1], default=n[2])
+        if k == "rtag":
+            from twisted.web.template import slot
+            t = Tag(n[1], render="r_" + n[5])
+            for a, sn, d in n[3]:
+                t.attributes[a] = slot(sn) if d is None else slot(sn, default=d)
+            t.children.extend(self.node(c) for c in n[4])
+            t.fillSlots(**dict((fk, self.carry(fv, kind, False)) for fk, fv, kind in n[2]))
+            return t
         if k == "ftag":
             from twisted.web.template import slot
             t = Tag(n[1])
@@ -282,11 +335,41 @@ class Build:
         return t
 
 
+_PAGE = []
+
+
+def _page_class():
+    if not _PAGE:
+        from twisted.web.template import Element, Tag, renderer, slot
+
+        class Page(Element):
+            @renderer
+            def r_same(self, request, tag):
+                return tag
+
+            @renderer
+            def r_children(self, request, tag):
+                return tag.children
+
+            @renderer
+            def r_wrap(self, request, tag):
+                return Tag("span", attributes={"class": "w"})(tag.children)
+
+            @renderer
+            def r_list(self, request, tag):
+                return ["[", slot("x", default="dflt"), "]", tag.children]
+        _PAGE.append(Page)
+    return _PAGE[0]
+
+
 def flatten_spec(spec_nodes):
     """-> (bytes or None, error string or None)"""
     from twisted.web.template import flattenString
     b = Build()
     root = [b.node(n) for n in spec_nodes]
+    if _has(spec_nodes, "rtag"):
+        from twisted.web.template import Tag, TagLoader
+        root = _page_class()(loader=TagLoader(Tag("")(*root)))
     out, err = [], []
     d = flattenString(None, root)
     d.addCallbacks(out.append, lambda f: err.append("%s: %s" % (f.type.__name__, f.getErrorMessage()[:200])))
@@ -676,7 +759,7 @@ def parse_htmlparser(doc):
 # --------------------------------------------------------------------------- oracle
 
 def _kids(n):
-    return n[3] if n[0] == "tag" else n[4] if n[0] == "ftag" else ()
+    return n[3] if n[0] == "tag" else n[4] if n[0] in ("ftag", "rtag") else ()
 
 
 def _has(spec_nodes, kind):
@@ -699,7 +782,7 @@ def _all_strings(spec_nodes):
             out.extend(s for _a, s, _c in n[2])
             for c in n[3]:
                 w(c)
-        elif n[0] == "ftag":
+        elif n[0] in ("ftag", "rtag"):
             out.extend(fv for _k, fv, _c in n[2])
             out.extend(d or "" for _a, _s, d in n[3])
             for c in n[4]:
@@ -720,6 +803,8 @@ def _first_diff(want, got):
 def _where(spec_nodes):
     """Which node kind holds a markup-significant string (for the signature): the first in comment > cdata > attr > text."""
     kinds = set()
+    if _has(spec_nodes, "rtag"):
+        return "renderer-slot"
     if _has(spec_nodes, "ftag"):
         return "nested-slot"
 
@@ -770,7 +855,7 @@ def judge(spec_nodes, doc, err):
         return "flatten-error", [("flatten:error:" + err.split(":")[0], {"error": err, "tree": repr(spec_nodes)[:300]})]
     want = model(spec_nodes)
     where = _where(spec_nodes)
-    want_leak = model(spec_nodes, leak=True) if where == "nested-slot" else None
+    want_leak = model(spec_nodes, leak=True) if where in ("nested-slot", "renderer-slot") else None
     strs = _all_strings(spec_nodes)
     bad = []
     label = "ok:" + where
@@ -864,6 +949,12 @@ def cases(tier):
             for a in s1:
                 for b in s1:
                     yield ("slots", "%s:%d" % (name, ci), a, b)
+    for name in shapes_render():
+        for m in RENDER_MODES:
+            for ci in range(2):
+                for a in s1:
+                    for b in s1:
+                        yield ("render", "%s:%s:%d" % (name, m, ci), a, b)
     for n in (60, 38, 34, 233):
         yield ("charref", n, "", "")
 
@@ -874,6 +965,9 @@ def build_case(case):
         return shapes_one()[case[1]][2](case[2], case[3])
     if kind == "two":
         return shapes_two()[case[1]][1](case[2], case[3])
+    if kind == "render":
+        name, m, ci = case[1].split(":")
+        return shapes_render()[name](m, case[2], case[3], ["c", "<"][int(ci)])
     if kind == "slots":
         name, ci = case[1].rsplit(":", 1)
         return shapes_slots()[name](case[2], case[3], ["c", "<", '"', "-->"][int(ci)])
@@ -902,7 +996,7 @@ def run_shard(shard, tier, seed):
         label, bad = run_case(case)
         st.evaluations += 1
         st.outcome(label)
-        if set(case[2] + str(case[3])) & SIGNIFICANT or (case[0] == "slots" and case[2] != case[3]):
+        if set(case[2] + str(case[3])) & SIGNIFICANT or (case[0] in ("slots", "render") and case[2] != case[3]):
             st.nt(case)
         if st.evaluations % 1201 == 11:
             st.sample({"case": list(case), "outcome": label}, 2)
